@@ -719,7 +719,7 @@ def evidence(tier, seed, total):
     return {
         'level': LEVEL,
         'coverage': {
-            'rule': 'Each world is a seeded random TREE internetwork (2-8 BACnet networks with random network numbers, routers of 2-4 ports built from the real '
+            'rule': '[addition: What-Is-Network-Number requests from stations and Network-Number-Is announcements from routers interleaved with the packets, so stations without a configured network number learn it in mid-run] Each world is a seeded random TREE internetwork (2-8 BACnet networks with random network numbers, routers of 2-4 ports built from the real '
                     'NetworkServiceAccessPoint/NetworkServiceElement, 1-3 complete station stacks per network, all stations either knowing or not knowing their '
                     'network number, routers announcing themselves at start or staying silent) carrying 5-50 packets drawn from every (source, kind in {unicast, '
                     'remote broadcast, global broadcast, local broadcast}, destination) combination, cold caches first then repeats on warm caches, 25% sent as bursts '
